@@ -125,6 +125,7 @@ SHARP = [
     ("cancel-pqr", [("S", ("P", "b")), ("S", ("Q", "b")), ("S", ("R", "b")), ("P", ("a",)), ("Q", ("a",)), ("R", ("a",))]),
     ("cancel-3", [("A", ("a",)), ("A", ("a",)), ("A", ("a",)), ("S", ("A", "b")), ("S", ("A", "a"))]),
     ("cancel-3-unary", [("A", ("B",)), ("A", ("B",)), ("A", ("B",)), ("B", ("a",)), ("S", ("A", "b")), ("S", ("a", "A"))]),
+    ("name-concat", [("S", ("AB", "C", "b")), ("S", ("A", "BC", "b")), ("AB", ("a",)), ("C", ("a",)), ("A", ("b",)), ("BC", ("b",))]),
     ("nullable-start-rhs", [("S", ("S", "A")), ("S", ()), ("A", ("a",)), ("A", ())]),
 ]
 
